@@ -17,7 +17,10 @@ def ensure_wt():
         r = sh("git", "-C", "/repo", "worktree", "add", "--detach", WT, "HEAD")
         if r.returncode: sys.exit(r.stderr)
     else:
-        sh("git", "-C", WT, "checkout", "--detach", sh("git", "-C", "/repo", "rev-parse", "HEAD").stdout.strip())
+        head = sh("git", "-C", "/repo", "rev-parse", "HEAD").stdout.strip()
+        sh("git", "-C", WT, "reset", "-q", "--hard")
+        sh("git", "-C", WT, "checkout", "-q", "--detach", head)
+        sh("git", "-C", WT, "reset", "-q", "--hard", head)
     sh("git", "-C", WT, "checkout", "--", ".")
 
 def main():
